@@ -17,6 +17,9 @@ KERNEL_TRUST = [
     "the skeleton translator (harness/cmd/vextract/skeleton.go): Go statement subset → Lean state-passing definitions (Gen/Skeletons.lean); anything outside the subset becomes an opaque step of an arbitrary oracle U",
 ]
 from hooks_c19 import hook as c19_hook, replay as c19_replay   # C19: names the (target, constant, value, expected) behind a broken theorem
+def _c12_hook(check, failed, mism):
+    import c12hook
+    c12hook.hook(check, failed, mism)
 
 
 def policy_stream(profile, quick, thorough, corpus=None, seeds=3, extra=None):
@@ -132,5 +135,26 @@ PROPS = {
                     "Go panics are observed by recover() in the harness and reported as the reply PANIC; the model answers PANIC exactly where one of its slicing/indexing primitives fails, and C16.parse_total proves that never happens"],
         "assumptions": ["read failures in the middle of a file cannot be injected into os.Open/bufio on the real code without a hook: the implementation is run on a directory (first read fails), a missing path and over-long lines (ErrTooLong after earlier lines were processed); failures after k lines are covered by the theorem on the model only",
                         "int is 64 bits wide on the host (int(num) is the identity)"],
+    },
+    "C12": {
+        "lean": ["Seccomp.Proofs.C12"],
+        # -n = number of fresh processes whose complete name→number maps are compared
+        "streams": [{"stream": "tables", "profile": "all", "quick": 5, "thorough": 20, "thorough_seeds": 1, "corpus": "C12", "timeout": 900}],
+        "hook": _c12_hook,
+        "hook_on_build_failure": True,   # a duplicate number is a Go compile error: the hook still names the entry
+        "exhaustive": True,
+        "rule": "finite: all five tables × every entry, every alias key, every Info row, every oracle source — decided completely by kernel evaluation and re-observed on the compiled package",
+        "trusted": [
+            "the independent sources as installed on this host: linux-libc-dev 6.1 UAPI headers (asm/unistd_64.h, unistd_32.h, unistd_x32.h, asm-generic/unistd.h evaluated by gcc with the six __ARCH_WANT_* macros of arm64 and 64-bit long; linux/audit.h + elf-em.h), Go 1.23 syscall/zsysnum_linux_*.go, golang.org/x/sys v0.19.0 / v0.29.0 / v0.48.0 zsysnum_linux_*.go; syscalls newer than 6.1 are covered by x/sys v0.48 only; the kernel's arm table is not installed, arm is compared with the Go sources only; x32 with unistd_x32.h only",
+            "name normalisation of the sources (strip __NR_ / SYS_, lower-case; documented in harness/cmd/vextract/oracle.go) and the Nat coding of names emitted by the translator (Arch.enc; spot-checked at string level by C12.oracle_examples, injective by C12.name_code_injective)",
+            "the hand-written expectations of Proofs/C12.lean: which alias names which Linux architecture, which architectures have tables, which AUDIT_ARCH_* constant belongs to which Info, the ABI column values of syscall_64.tbl (common/64/x32)",
+            "gcc 12 as evaluator of the header macros",
+        ],
+        "assumptions": [
+            "Go map semantics: a map literal holds exactly its entries; `range` visits each entry once in an unspecified order (the model quantifies over all orders)",
+            "strings.ToLower is modelled by ASCII lower-casing plus U+0130→i, U+212A→k; that no other non-ASCII rune lower-cases into ASCII is checked for all 0x110000 code points of the toolchain in use on every run",
+            "runtime.GOARCH is a parameter of the model (the empty name); only amd64 is executed on this host",
+            "the generator arch/mk_syscalls_linux.go cannot download kernel sources offline: its ABI-column filter is checked as a regenerated literal and by executing a copy (base URL redirected to a local five-row fixture), not by regenerating zsyscalls.go",
+        ],
     },
 }
